@@ -494,6 +494,11 @@ impl<T: Types> RaftLog<T> {
         &mut self,
         rec: &WALRecord<T>,
     ) -> Result<Segment, io::Error> {
+        // Validate against the current state before anything is journalled:
+        // a rejected record must not reach the WAL, the log index or the
+        // payload cache.
+        self.state_machine.log_state.check(rec)?;
+
         WAL::append(&mut self.wal, rec)?;
         StateMachine::apply(
             &mut self.state_machine,
